@@ -7,32 +7,43 @@ are copied verbatim from C04 (generated); each proof is the C04 theorem.  The ge
 `g1Codec_lawful` / `g2Codec_lawful` and these instances.  Nothing is left as a hypothesis.
 -/
 import PP.Props.C04
-import PP.Props.C07
-import PP.Proofs.Assembly
+import PP.Proofs.AssemblyFq2
 
 set_option linter.unusedSectionVars false
 
 namespace PP.C04Inst
-open PP ZCash (validate)
+open PP
 
 /-! ## G1 (the `LawfulSqrtOps Fq` instance is `PP.Proofs.Sqrt`'s, C18) -/
 section g1
 
 theorem decodeUncompressed_g1 (bs : Bytes) (hl : bs.length = 96) :
-    decodeUncompressed g1Codec bs = validate (g1Codec.curve ZCash.fqCoord) .uncompressed true bs :=
+    decodeUncompressed g1Codec bs = ZCash.validate (g1Codec.curve ZCash.fqCoord) .uncompressed true bs :=
   PP.C04.decodeUncompressed_g1 bs hl
 
 theorem decodeCompressed_g1 (bs : Bytes) (hl : bs.length = 48) :
-    decodeCompressed g1Codec bs = validate (g1Codec.curve ZCash.fqCoord) .compressed true bs :=
+    decodeCompressed g1Codec bs = ZCash.validate (g1Codec.curve ZCash.fqCoord) .compressed true bs :=
   PP.C04.decodeCompressed_g1 bs hl
 
 theorem decodeUncompressedUnchecked_g1 (bs : Bytes) (hl : bs.length = 96) :
-    decodeUncompressedUnchecked g1Codec bs = validate (g1Codec.curve ZCash.fqCoord) .uncompressed false bs :=
+    decodeUncompressedUnchecked g1Codec bs = ZCash.validate (g1Codec.curve ZCash.fqCoord) .uncompressed false bs :=
   PP.C04.decodeUncompressedUnchecked_g1 bs hl
 
 theorem decodeCompressedUnchecked_g1 (bs : Bytes) (hl : bs.length = 48) :
-    decodeCompressedUnchecked g1Codec bs = validate (g1Codec.curve ZCash.fqCoord) .compressed false bs :=
+    decodeCompressedUnchecked g1Codec bs = ZCash.validate (g1Codec.curve ZCash.fqCoord) .compressed false bs :=
   PP.C04.decodeCompressedUnchecked_g1 bs hl
+
+/-- success iff accepted by the ordered ZCash validation, and then exactly that point -/
+theorem decodeCompressed_ok_iff_g1 (bs : Bytes) (hl : bs.length = 48) (A : Aff Fq) :
+    decodeCompressed g1Codec bs = .ok A ↔
+      ZCash.Accepts (g1Codec.curve ZCash.fqCoord) .compressed true bs A :=
+  PP.C04.decodeCompressed_ok_iff g1Codec_lawful bs hl A
+
+theorem decodeUncompressed_ok_iff_g1 (bs : Bytes) (hl : bs.length = 96) (A : Aff Fq) :
+    decodeUncompressed g1Codec bs = .ok A ↔
+      ZCash.Accepts (g1Codec.curve ZCash.fqCoord) .uncompressed true bs A :=
+  PP.C04.decodeUncompressed_ok_iff g1Codec_lawful bs hl A
+
 
 end g1
 
@@ -45,20 +56,30 @@ section g2
 attribute [-instance] Fq2.instAdd Fq2.instSub Fq2.instMul Fq2.instNeg Fq2.instZero Fq2.instOne
 
 theorem decodeUncompressed_g2 (bs : Bytes) (hl : bs.length = 192) :
-    decodeUncompressed g2Codec bs = validate (g2Codec.curve ZCash.fq2Coord) .uncompressed true bs :=
+    decodeUncompressed g2Codec bs = ZCash.validate (g2Codec.curve ZCash.fq2Coord) .uncompressed true bs :=
   PP.C04.decodeUncompressed_g2 bs hl
 
 theorem decodeCompressed_g2 (bs : Bytes) (hl : bs.length = 96) :
-    decodeCompressed g2Codec bs = validate (g2Codec.curve ZCash.fq2Coord) .compressed true bs :=
+    decodeCompressed g2Codec bs = ZCash.validate (g2Codec.curve ZCash.fq2Coord) .compressed true bs :=
   PP.C04.decodeCompressed_g2 bs hl
 
 theorem decodeUncompressedUnchecked_g2 (bs : Bytes) (hl : bs.length = 192) :
-    decodeUncompressedUnchecked g2Codec bs = validate (g2Codec.curve ZCash.fq2Coord) .uncompressed false bs :=
+    decodeUncompressedUnchecked g2Codec bs = ZCash.validate (g2Codec.curve ZCash.fq2Coord) .uncompressed false bs :=
   PP.C04.decodeUncompressedUnchecked_g2 bs hl
 
 theorem decodeCompressedUnchecked_g2 (bs : Bytes) (hl : bs.length = 96) :
-    decodeCompressedUnchecked g2Codec bs = validate (g2Codec.curve ZCash.fq2Coord) .compressed false bs :=
+    decodeCompressedUnchecked g2Codec bs = ZCash.validate (g2Codec.curve ZCash.fq2Coord) .compressed false bs :=
   PP.C04.decodeCompressedUnchecked_g2 bs hl
+
+theorem decodeCompressed_ok_iff_g2 (bs : Bytes) (hl : bs.length = 96) (A : Aff Fq2) :
+    decodeCompressed g2Codec bs = .ok A ↔
+      ZCash.Accepts (g2Codec.curve ZCash.fq2Coord) .compressed true bs A :=
+  PP.C04.decodeCompressed_ok_iff g2Codec_lawful bs hl A
+
+theorem decodeUncompressed_ok_iff_g2 (bs : Bytes) (hl : bs.length = 192) (A : Aff Fq2) :
+    decodeUncompressed g2Codec bs = .ok A ↔
+      ZCash.Accepts (g2Codec.curve ZCash.fq2Coord) .uncompressed true bs A :=
+  PP.C04.decodeUncompressed_ok_iff g2Codec_lawful bs hl A
 
 end g2
 
